@@ -20,7 +20,11 @@ followed by reserve_sector and disk_usage += and every release of an owned exten
 persist loads of record_count / disk_usage. Not decided: the partition invariant itself at quiescent points.
 """
 DECIDED = ["a scrubbed run is released with the sum of its members' own extent lengths", "(a) who allocates / releases", "(b,c) release after durable marker and with no reader; dirty reservations only after scrub",
-           "(d) one extent-length function", "(e) disk_usage accounting and what is persisted"]
+           "(d) one extent-length function", "(e) disk_usage accounting and what is persisted",
+           'reservation word: sector bits below the flag bits for every accepted device size; flag helpers touch one bit; closed writer set',
+           'allocator size index and start index are mutated for the same run (shared with C06.pair)',
+           "recovery frees an owned extent with that generation's own length",
+           'recovery gap bookkeeping (last_end cursor) and coalescing of releases']
 NOT_DECIDED = ["(f) the data area is exactly partitioned at every quiescent point", "no leak over unbounded workloads"]
 ASSUMPTIONS = ["exclusive access to FreeSpaceManager is by type (&mut self behind RwLock)"]
 
